@@ -99,11 +99,17 @@ fn do_replay<P: Prop>(path: &str) -> i32 {
         return 2;
     };
     match run_replay::<P>(&v["case"]) {
-        Ok(vs) if vs.is_empty() => {
-            println!("HELD property={} replay={path} (case no longer violates)", P::ID);
+        Ok((vs, inc)) if vs.is_empty() && !inc.is_empty() => {
+            for r in inc {
+                println!("INCONCLUSIVE property={} reason={r}", P::ID);
+            }
+            2
+        }
+        Ok((vs, _)) if vs.is_empty() => {
+            println!("HELD property={} replay={path} (case does not violate)", P::ID);
             0
         }
-        Ok(vs) => {
+        Ok((vs, _)) => {
             println!("VIOLATION property={} replay={path}", P::ID);
             for v in vs {
                 println!("  signature={} detail={}", v.signature, v.detail);
